@@ -558,6 +558,8 @@ def dot(a, b, axis=None):
         if len(a.N) < len(b.N):
             raise ShapeMismatch(
                 'Number of the modes of the first tensor must be equal with the second.')
+        if len(set(axis)) != len(axis):
+            raise InvalidArguments('A mode is named twice in axis.')
         if [a.N[i] for i in range(len(a.N)) if i in axis] != list(b.N):
             raise ShapeMismatch(
                 'The modes of the second tensor must be the modes of the first one along axis.')
